@@ -538,7 +538,6 @@ Lemma size_nat_gt : forall n, n < 2 ^ N.of_nat (N.size_nat n).
 Proof.
   intros [|p]; [reflexivity|]. cbn [N.size_nat].
   induction p as [p IH|p IH|]; cbn [Pos.size_nat]; try rewrite Nat2N.inj_succ, N.pow_succ_r'; try lia.
-  reflexivity.
 Qed.
 
 Lemma decimal_spec : forall n, n <= max_u64 ->
@@ -553,3 +552,273 @@ Proof.
   - unfold parse_uint0. replace (c =? 48) with false by lia.
     specialize (E5 [] false). rewrite app_nil_r in E5. rewrite E5. reflexivity.
 Qed.
+
+(* ---------- 4. the lexer on rendered pieces ---------- *)
+Definition next_body (prev : pos) (x : list rune * pos * bool) : token * lst :=
+  let '(rs, p, cr) := x in
+  match rs with
+  | [] => (mkTok TkEOF prev [] 0 LexNone, mkLst [] p cr)
+  | r :: tl =>
+    let c := r_cp r in
+    match punct c with
+    | Some k => let '(p', cr') := adv_pos p cr tl in (mkTok k prev [] 0 LexNone, mkLst tl p' cr')
+    | None =>
+      if is_letter c then
+        let '(id, (rs', p', cr')) := read_ident rs p cr [] in
+        (mkTok (match keyword id with Some k => k | None => TkIdent end) prev id 0 LexNone, mkLst rs' p' cr')
+      else if is_digit c then
+        let '(p1, cr1) := adv_pos p cr tl in
+        let '(ds, (rs', p', cr')) := read_numcont tl p1 cr1 [c] in
+        match parse_uint0 ds with
+        | Some v => (mkTok TkIntNumber prev [] v LexNone, mkLst rs' p' cr')
+        | None => (mkTok TkError prev [] 0 LexNumber, mkLst rs' p' cr')
+        end
+      else
+        let '(p', cr') := adv_pos p cr tl in (mkTok TkError prev [] 0 LexChar, mkLst tl p' cr')
+    end
+  end.
+
+Lemma next_token_body : forall st,
+  next_token st = next_body (l_pos st) (skip_ws false (l_rs st) (l_pos st) (l_cr st)).
+Proof. reflexivity. Qed.
+
+Definition retag (p : pos) (t : token) : token := mkTok (t_kind t) p (t_ident t) (t_num t) (t_err t).
+
+Lemma next_body_retag : forall prev prev' x,
+  next_body prev x = (retag prev (fst (next_body prev' x)), snd (next_body prev' x)).
+Proof.
+  intros prev prev' [[rs p] cr]. unfold next_body. destruct rs as [|r tl]; [reflexivity|].
+  destruct (punct (r_cp r)).
+  { destruct (adv_pos p cr tl). reflexivity. }
+  destruct (is_letter (r_cp r)).
+  { destruct (read_ident (r :: tl) p cr []) as [id [[rs' p'] cr']]. reflexivity. }
+  destruct (is_digit (r_cp r)).
+  { destruct (adv_pos p cr tl) as [p1 cr1].
+    destruct (read_numcont tl p1 cr1 [r_cp r]) as [ds [[rs' p'] cr']].
+    destruct (parse_uint0 ds); reflexivity. }
+  destruct (adv_pos p cr tl). reflexivity.
+Qed.
+
+Definition stop_ok (R : list rune) : Prop :=
+  match R with
+  | [] => True
+  | r :: _ => ident_char (r_cp r) = false /\ is_number_continuation (r_cp r) = false
+  end.
+
+Lemma skip_ws_stop : forall r tl p cr, is_space (r_cp r) = false -> (r_cp r =? 47) = false ->
+  skip_ws false (r :: tl) p cr = (r :: tl, p, cr).
+Proof. intros r tl p cr H1 H2. cbn [skip_ws]. destruct (adv_pos p cr tl). rewrite H1, H2. reflexivity. Qed.
+
+Lemma skip_ws_space : forall r tl p cr, is_space (r_cp r) = true ->
+  skip_ws false (r :: tl) p cr = skip_ws false tl (fst (adv_pos p cr tl)) (snd (adv_pos p cr tl)).
+Proof. intros r tl p cr H1. cbn [skip_ws]. destruct (adv_pos p cr tl). rewrite H1. reflexivity. Qed.
+
+Lemma read_ident_runes : forall w R p cr acc, forallb ident_char w = true -> stop_ok R ->
+  exists p' cr', read_ident (runes w ++ R) p cr acc = (acc ++ w, (R, p', cr')).
+Proof.
+  induction w as [|c w IH]; intros R p cr acc Hw HR.
+  - cbn [runes map app]. rewrite app_nil_r. destruct R as [|r R]; [exists p, cr; reflexivity|].
+    destruct HR as [HR _]. cbn [read_ident]. rewrite HR. exists p, cr. reflexivity.
+  - cbn [forallb] in Hw. apply andb_true_iff in Hw. destruct Hw as [Hc Hw].
+    cbn [runes map app read_ident]. change (r_cp (rune_of c)) with c. rewrite Hc.
+    destruct (adv_pos p cr (map rune_of w ++ R)) as [p1 cr1].
+    destruct (IH R p1 cr1 (acc ++ [c]) Hw HR) as [p' [cr' E]].
+    exists p', cr'. unfold runes in E. rewrite E, <- app_assoc. reflexivity.
+Qed.
+
+Lemma read_numcont_runes : forall w R p cr acc, forallb is_digit w = true -> stop_ok R ->
+  exists p' cr', read_numcont (runes w ++ R) p cr acc = (acc ++ w, (R, p', cr')).
+Proof.
+  induction w as [|c w IH]; intros R p cr acc Hw HR.
+  - cbn [runes map app]. rewrite app_nil_r. destruct R as [|r R]; [exists p, cr; reflexivity|].
+    destruct HR as [_ HR]. cbn [read_numcont]. rewrite HR. exists p, cr. reflexivity.
+  - cbn [forallb] in Hw. apply andb_true_iff in Hw. destruct Hw as [Hc Hw].
+    cbn [runes map app read_numcont]. change (r_cp (rune_of c)) with c.
+    apply digit_props in Hc. destruct Hc as (_ & _ & _ & _ & _ & Hc). rewrite Hc.
+    destruct (adv_pos p cr (map rune_of w ++ R)) as [p1 cr1].
+    destruct (IH R p1 cr1 (acc ++ [c]) Hw HR) as [p' [cr' E]].
+    exists p', cr'. unfold runes in E. rewrite E, <- app_assoc. reflexivity.
+Qed.
+
+Lemma runes_app : forall a b, runes (a ++ b) = runes a ++ runes b.
+Proof. intros. unfold runes. apply map_app. Qed.
+
+(* the token at a word, a number, a punctuation mark *)
+Lemma next_word : forall w R p cr, word_ok w = true -> stop_ok R ->
+  exists p' cr', next_token (mkLst (runes w ++ R) p cr) = (mkTok (word_kind w) p w 0 LexNone, mkLst R p' cr').
+Proof.
+  intros w R p cr Hw HR. destruct w as [|c w]; [discriminate|].
+  cbn [word_ok] in Hw. apply andb_true_iff in Hw. destruct Hw as [Hc Hw].
+  assert (Hic : forallb ident_char (c :: w) = true).
+  { cbn [forallb]. rewrite Hw. unfold ident_char. rewrite Hc. reflexivity. }
+  destruct (letter_props c Hc) as (_ & Hsp & Hpu & H47 & _).
+  destruct (read_ident_runes (c :: w) R p cr [] Hic HR) as [p' [cr' E]].
+  exists p', cr'. rewrite next_token_body. cbn [l_rs l_pos l_cr].
+  cbn [runes map app] in *. rewrite skip_ws_stop by assumption.
+  unfold next_body. change (r_cp (rune_of c)) with c. rewrite Hpu, Hc.
+  unfold runes in E. rewrite E. reflexivity.
+Qed.
+
+Lemma next_num : forall n R p cr, n <= max_u64 -> stop_ok R ->
+  exists p' cr', next_token (mkLst (runes (decimal n) ++ R) p cr)
+                 = (mkTok TkIntNumber p [] n LexNone, mkLst R p' cr').
+Proof.
+  intros n R p cr Hn HR. destruct (decimal_spec n Hn) as [c [ds [E1 [E2 [E3 E4]]]]]. rewrite E1.
+  destruct (digit_props c E2) as (_ & Hsp & Hpu & H47 & Hl & _).
+  rewrite next_token_body. cbn [l_rs l_pos l_cr runes map app]. rewrite skip_ws_stop by assumption.
+  unfold next_body. change (r_cp (rune_of c)) with c. rewrite Hpu, Hl, E2.
+  destruct (adv_pos p cr (map rune_of ds ++ R)) as [p1 cr1].
+  destruct (read_numcont_runes ds R p1 cr1 [c] E3 HR) as [p' [cr' E]].
+  unfold runes in E. rewrite E. cbn [app]. rewrite E4. exists p', cr'. reflexivity.
+Qed.
+
+Lemma next_punct : forall c k R p cr, punct c = Some k ->
+  exists p' cr', next_token (mkLst (rune_of c :: R) p cr) = (mkTok k p [] 0 LexNone, mkLst R p' cr').
+Proof.
+  intros c k R p cr Hk.
+  assert (Hs : sep_char c = true) by (unfold sep_char; rewrite Hk; apply orb_true_r).
+  destruct (sep_char_props c Hs) as (_ & _ & _ & H47).
+  assert (Hsp : is_space c = false).
+  { apply sep_char_cases in Hs.
+    destruct Hs as [->|[->|Hs]]; [discriminate Hk|discriminate Hk|].
+    repeat (destruct Hs as [Hs|Hs]; [subst c; reflexivity|]). subst c; reflexivity. }
+  rewrite next_token_body. cbn [l_rs l_pos l_cr]. rewrite skip_ws_stop by assumption.
+  unfold next_body. change (r_cp (rune_of c)) with c. rewrite Hk.
+  destruct (adv_pos p cr R) as [p' cr']. exists p', cr'. reflexivity.
+Qed.
+
+Lemma next_space : forall c R p cr, is_space c = true ->
+  exists p' cr', next_token (mkLst (rune_of c :: R) p cr)
+     = (retag p (fst (next_token (mkLst R p' cr'))), snd (next_token (mkLst R p' cr'))).
+Proof.
+  intros c R p cr H. exists (fst (adv_pos p cr R)), (snd (adv_pos p cr R)).
+  rewrite !next_token_body. cbn [l_rs l_pos l_cr]. rewrite skip_ws_space by exact H.
+  apply next_body_retag.
+Qed.
+
+Lemma punct_not_eof : forall c k, punct c = Some k -> tkind_eqb k TkEOF = false.
+Proof.
+  intros c k H. unfold punct in H.
+  repeat match type of H with (if ?b then _ else _) = _ => destruct b; [inversion H; reflexivity|] end.
+  discriminate.
+Qed.
+
+Lemma assoc_not_eof : forall (l : list (str * tkind)) w,
+  forallb (fun kv => negb (tkind_eqb (snd kv) TkEOF)) l = true ->
+  tkind_eqb match assoc_str l w with Some k => k | None => TkIdent end TkEOF = false.
+Proof.
+  induction l as [|[k v] l IH]; intros w Hl; [reflexivity|].
+  cbn [forallb snd] in Hl. apply andb_true_iff in Hl. destruct Hl as [H1 H2].
+  cbn [assoc_str]. destruct (str_eqb k w); [apply negb_true_iff; exact H1 | auto].
+Qed.
+
+Lemma word_kind_not_eof : forall w, tkind_eqb (word_kind w) TkEOF = false.
+Proof. intros w. unfold word_kind, keyword. apply assoc_not_eof. reflexivity. Qed.
+
+Lemma first_safe_stop : forall ps, good ps true = true -> first_safe ps true = true ->
+  stop_ok (runes (render ps)).
+Proof.
+  intros [|q ps] Hg Hf; [exact I|].
+  cbn [good] in Hg. rewrite !andb_true_iff in Hg. destruct Hg as [[Hq _] _].
+  cbn [first_safe] in Hf.
+  assert (H : exists c, render (q :: ps) = c :: render ps /\ sep_char c = true).
+  { destruct q as [c|c k|w|n]; try discriminate Hf; exists c; (split; [reflexivity|]);
+      cbn [piece_ok] in Hq; unfold sep_char.
+    - rewrite Hq. reflexivity.
+    - destruct (punct c); [apply orb_true_r | discriminate]. }
+  destruct H as [c [E Hc]]. rewrite E. cbn [runes map stop_ok]. change (r_cp (rune_of c)) with c.
+  destruct (sep_char_props c Hc) as (_ & H1 & H2 & _). split; assumption.
+Qed.
+
+Lemma tkind_eqb_true : forall a b, tkind_eqb a b = true -> a = b.
+Proof. destruct a, b; intros H; try reflexivity; discriminate H. Qed.
+
+Lemma lex_all_S : forall f st,
+  lex_all (S f) st = let '(t, st') := next_token st in if is_eof t then [t] else t :: lex_all f st'.
+Proof. reflexivity. Qed.
+
+Lemma lex_pieces_aux : forall ps p cr fuel, good ps true = true -> (length (toks ps) < fuel)%nat ->
+  map erase (lex_all fuel (mkLst (runes (render ps)) p cr)) = toks ps ++ [a_eof].
+Proof.
+  induction ps as [|q ps IH]; intros p cr fuel Hg Hfuel.
+  - destruct fuel as [|f]; [cbn [toks flat_map length] in Hfuel; lia|]. reflexivity.
+  - cbn [good] in Hg. rewrite !andb_true_iff in Hg. destruct Hg as [[Hq Hs] Hg].
+    change (render (q :: ps)) with (render1 q ++ render ps). rewrite runes_app.
+    change (toks (q :: ps)) with (tok1 q ++ toks ps) in *.
+    destruct q as [c|c k|w|n]; cbn [piece_ok needs_sep render1 tok1 app] in *.
+    + (* space *)
+      assert (Hsp : is_space c = true).
+      { apply orb_true_iff in Hq. destruct Hq as [Hq|Hq]; apply N.eqb_eq in Hq; subst c; reflexivity. }
+      destruct fuel as [|f]; [lia|].
+      cbn [runes map app]. destruct (next_space c (runes (render ps)) p cr Hsp) as [p' [cr' E]].
+      specialize (IH p' cr' (S f) Hg Hfuel). rewrite lex_all_S in *. rewrite E.
+      destruct (next_token (mkLst (runes (render ps)) p' cr')) as [t st'].
+      cbn [fst snd]. change (is_eof (retag p t)) with (is_eof t).
+      destruct (is_eof t); exact IH.
+    + (* punctuation *)
+      destruct (punct c) as [k'|] eqn:Ek; [|discriminate]. apply tkind_eqb_true in Hq. subst k'.
+      destruct fuel as [|f]; [lia|].
+      cbn [runes map app]. destruct (next_punct c k (runes (render ps)) p cr Ek) as [p' [cr' E]].
+      cbn [lex_all]. rewrite E. unfold is_eof. cbn [t_kind]. rewrite (punct_not_eof c k Ek).
+      cbn [map]. f_equal. apply IH; [exact Hg | cbn [length] in Hfuel; lia].
+    + (* word *)
+      destruct fuel as [|f]; [lia|].
+      destruct (next_word w (runes (render ps)) p cr Hq (first_safe_stop ps Hg Hs)) as [p' [cr' E]].
+      cbn [lex_all]. rewrite E. unfold is_eof. cbn [t_kind]. rewrite word_kind_not_eof.
+      cbn [map]. f_equal. apply IH; [exact Hg | cbn [length] in Hfuel; lia].
+    + (* number *)
+      destruct fuel as [|f]; [lia|].
+      assert (Hn : n <= max_u64) by lia.
+      destruct (next_num n (runes (render ps)) p cr Hn (first_safe_stop ps Hg Hs)) as [p' [cr' E]].
+      cbn [lex_all]. rewrite E. change (is_eof (mkTok TkIntNumber p [] n LexNone)) with false.
+      cbn [map]. f_equal. apply IH; [exact Hg | cbn [length] in Hfuel; lia].
+Qed.
+
+Lemma piece_scalar_len : forall q, piece_ok q = true ->
+  forallb scalar (render1 q) = true /\ (length (tok1 q) <= length (render1 q))%nat.
+Proof.
+  intros [c|c k|w|n] Hq; cbn [piece_ok render1 tok1] in *.
+  - split; [|cbn [length]; lia]. cbn [forallb]. rewrite andb_true_r.
+    apply orb_true_iff in Hq. destruct Hq as [Hq|Hq]; apply N.eqb_eq in Hq; subst c; reflexivity.
+  - split; [|cbn [length]; lia]. cbn [forallb]. rewrite andb_true_r.
+    assert (Hs : sep_char c = true).
+    { unfold sep_char. destruct (punct c); [apply orb_true_r | discriminate]. }
+    apply sep_char_props in Hs. tauto.
+  - destruct w as [|c w]; [discriminate|]. split; [|cbn [length]; lia].
+    cbn [word_ok] in Hq. apply andb_true_iff in Hq. destruct Hq as [Hc Hw].
+    cbn [forallb]. apply andb_true_iff. split; [apply letter_props in Hc; tauto|].
+    rewrite forallb_forall in *. intros x Hx. apply ident_char_scalar. auto.
+  - assert (Hn : n <= max_u64) by lia.
+    destruct (decimal_spec n Hn) as [c [ds [E1 [E2 [E3 _]]]]]. rewrite E1.
+    split; [|cbn [length]; lia].
+    cbn [forallb]. apply andb_true_iff. split; [apply digit_props in E2; tauto|].
+    rewrite forallb_forall in *. intros x Hx. specialize (E3 x Hx). apply digit_props in E3. tauto.
+Qed.
+
+Lemma good_scalar_len : forall ps x, good ps x = true ->
+  forallb scalar (render ps) = true /\ (length (toks ps) <= length (render ps))%nat.
+Proof.
+  induction ps as [|q ps IH]; intros x H; [split; [reflexivity | cbn; lia]|].
+  cbn [good] in H. rewrite !andb_true_iff in H. destruct H as [[Hq _] Hg].
+  destruct (IH x Hg) as [IH1 IH2]. destruct (piece_scalar_len q Hq) as [H1 H2].
+  change (render (q :: ps)) with (render1 q ++ render ps).
+  change (toks (q :: ps)) with (tok1 q ++ toks ps).
+  rewrite forallb_app, !app_length, H1, IH1. split; [reflexivity | lia].
+Qed.
+
+(* (b), generic form: any good piece list lexes to its tokens *)
+Theorem lex_pieces : forall ps, good ps true = true ->
+  map erase (tokenize (utf8_encode (render ps))) = toks ps ++ [a_eof].
+Proof.
+  intros ps Hg. destruct (good_scalar_len ps true Hg) as [Hsc Hlen].
+  unfold tokenize, lex_init. rewrite decode_encode by exact Hsc.
+  destruct (adv_pos pos0 false (runes (render ps))) as [p cr]. cbn [l_rs].
+  apply lex_pieces_aux; [exact Hg|]. unfold runes. rewrite map_length. lia.
+Qed.
+
+(* (b): the printed text of a lexable schema lexes to schema_tokens *)
+Theorem lex_print : forall s, lexable s = true ->
+  map erase (tokenize (utf8_encode (print s))) = schema_tokens s ++ [a_eof].
+Proof. intros s H. rewrite print_pieces. apply lex_pieces. apply lexable_good. exact H. Qed.
+
+Print Assumptions lex_print.
